@@ -207,7 +207,7 @@ package slog
 //@   ensures [C10.ret] result == s
 
 //@ func (*Entry).WithJSONMode
-//@   props C10
+//@   props C10 C11
 //@   requires s != nil && specFmtInv(s)
 //@   assigns everything
 //@   maypanic
@@ -219,7 +219,7 @@ package slog
 //@   ensures [C10.carry] implies(specLastBool(b, true), specFormat(result) == fmtJSON) && implies(!specLastBool(b, true), !result.useJSON && result.useColor == old(s.useColor) && !old(s.useJSON) || !result.useJSON) && result.level == old(s.level)
 
 //@ func (*Entry).WithColorMode
-//@   props C10
+//@   props C10 C11
 //@   requires s != nil && specFmtInv(s)
 //@   assigns everything
 //@   maypanic
